@@ -332,6 +332,8 @@ def print_stmts(nodes, i, ind=1, opts=None, single=False):
         n = nodes[i - 1]
         p = '  ' * ind
         t = n['t']
+        if opts.get('probes') and t not in ('label',) and not opts.get('label_prefix') and not (single and opts.get('skip_probe')):
+            out.append(p + 'probe();')          # fault-injection point at every statement boundary
         if t == 'log':
             out.append(p + 'log(%d);' % n['n'])
         elif t == 'empty':
@@ -411,7 +413,7 @@ def print_stmts(nodes, i, ind=1, opts=None, single=False):
                 out += print_stmts(nodes, n['a'], ind, o2, single=True)
             else:
                 out.append(p + opts.get('label_prefix', '') + 'L%d:' % n['l'])
-                out += print_stmts(nodes, n['a'], ind, dict(opts, label_prefix=''), single=True)
+                out += print_stmts(nodes, n['a'], ind, dict(opts, label_prefix='', skip_probe=True), single=True)
             i = n['nx']
             continue
         elif t == 'switch':
@@ -431,10 +433,10 @@ def print_stmts(nodes, i, ind=1, opts=None, single=False):
     return out
 
 
-def print_js(prog):
+def print_js(prog, probes=False):
     """JavaScript source whose observable behaviour (log calls + completion) the oracle predicts."""
     nodes = prog['nodes']
-    body = '\n'.join(print_stmts(nodes, nodes[prog['root'] - 1]['a']))
+    body = '\n'.join(print_stmts(nodes, nodes[prog['root'] - 1]['a'], 1, {'probes': True} if probes else None))
     if prog['gen']:
         drv = '\n'.join('R(function(){ return it.%s(%d) });' % (o['op'], o['v']) for o in prog['ops'])
         return (PRE + 'var T=true, Fa=false;\nfunction* f(){\n' + body + '\n}\nvar it=f();\n'
